@@ -162,14 +162,35 @@ fn sweeps(arch: usize) -> Vec<Vec<u8>> {
     v
 }
 
-/// the stack idiom of each architecture (bytes) — lifting it must write `stack_pointer()`
-fn stack_idiom(arch: usize) -> Vec<u8> {
+/// stack idioms of each architecture (bytes) — lifting each must write `stack_pointer()`, also
+/// when the instruction names a narrower view of the stack pointer (sp/esp on amd64, wsp on A64)
+fn stack_idioms(arch: usize) -> Vec<Vec<u8>> {
     match ARCHS[arch] {
-        "x86" => vec![0x50],                   // push eax
-        "amd64" => vec![0x50],                 // push rax
-        "mips" | "mipsel" => word(arch, 0x27BD_FFE0), // addiu $sp,$sp,-32
-        "ppc" => word(arch, 0x9421_FFF0),      // stwu r1,-16(r1)
-        _ => word(arch, 0xD100_43FF),          // sub sp,sp,#16
+        "x86" => vec![
+            vec![0x50],                   // push eax
+            vec![0x58],                   // pop eax
+            vec![0x83, 0xEC, 0x10],       // sub esp,16
+            vec![0x66, 0x83, 0xC4, 0x04], // add sp,4
+            vec![0xC9],                   // leave
+        ],
+        "amd64" => vec![
+            vec![0x50],                   // push rax
+            vec![0x58],                   // pop rax
+            vec![0x48, 0x83, 0xEC, 0x10], // sub rsp,16
+            vec![0x83, 0xC4, 0x04],       // add esp,4
+            vec![0x66, 0x83, 0xC4, 0x04], // add sp,4
+            vec![0xC9],                   // leave
+        ],
+        "mips" | "mipsel" => vec![word(arch, 0x27BD_FFE0), word(arch, 0x03A0_E825)], // addiu $sp,$sp,-32 ; move $sp,$sp (or)
+        "ppc" => vec![word(arch, 0x9421_FFF0), word(arch, 0x3821_0010)], // stwu r1,-16(r1) ; addi r1,r1,16
+        _ => vec![
+            word(arch, 0xD100_43FF), // sub sp,sp,#16
+            word(arch, 0x9100_43FF), // add sp,sp,#16
+            word(arch, 0x1100_43FF), // add wsp,wsp,#16
+            word(arch, 0x5100_43FF), // sub wsp,wsp,#16
+            word(arch, 0xA9BF_7BFD), // stp x29,x30,[sp,#-16]!
+            word(arch, 0xA8C1_7BFD), // ldp x29,x30,[sp],#16
+        ],
     }
 }
 
@@ -338,9 +359,8 @@ fn check(case: &Case, obs: &mut Obs) -> Result<(), Failure> {
     if a.endian() != ab.endian {
         bad(format!("C20|{}|endian", name), format!("endian() = {:?}, {} is {:?}", a.endian(), name, ab.endian));
     }
-    // the stack idiom, given in the architecture's instruction byte order, lifts and writes SP
-    {
-        let bytes = stack_idiom(case.arch);
+    // every stack idiom, given in the architecture's instruction byte order, lifts and writes SP
+    for bytes in stack_idioms(case.arch) {
         let tr = a.translator();
         let mut wrote = BTreeSet::new();
         if let Ok(Ok(r)) = guard(|| tr.translate_block(&bytes, 0x10000, &Options::default())) {
